@@ -395,4 +395,8 @@ def run(tier, replay=None):
         if arr.tolist() != probs.tolist():
             chk.violation("posterior_as_array does not follow the VCF order", case, "C11/posterior_as_array/order")
     chk.extra["exhaustive_spaces"] = len(spaces)
+    # a consumer that pairs the index with the enumerator: every G-length likelihood array (FORMAT/GL, the array path of call-exact)
+    # over more than 1024 genotypes has entry i = genotype number i
+    from .c04 import gl_large_spaces
+    gl_large_spaces(chk, C.rng(PROP + ":gl"), tier, "C11/genotype_likelihoods/order")
     return chk.finish()
